@@ -95,6 +95,7 @@ type FnExec struct {
 	evalDepth     int
 	warns         []string
 	owned         map[Term]bool
+	hw            Term         // current allocation watermark: every object allocated so far has an id <= hw
 	boxed         map[Term]Val // interface value term -> the boxed pointer value (pointers to local cells)
 	cbInfo        map[*ssa.Function]*cbState
 	curInstr      ssa.Instruction
@@ -1331,6 +1332,11 @@ func (fe *FnExec) globalVal(st *State, g *ssa.Global) Val {
 		v = RefV{tInt(int64(n))}
 	} else {
 		v = fe.freshVal(pt, "g."+g.Name())
+		if sl, ok := v.(SliceV); ok {
+			if n, ok := fe.eng.globalLitLen(g); ok {
+				fe.assume(tEq(sl.Len, tInt(int64(n))), "length of the composite literal initialising "+g.Name())
+			}
+		}
 	}
 	fe.globals[g] = v
 	return v
